@@ -150,6 +150,7 @@ static void prop_cycle(Tape &t, Ctx &c) {
         Mat B2 = extract_operator(amg2, n);
         for (ptrdiff_t j = 0; j < n; ++j) for (ptrdiff_t i = 0; i < n; ++i) {
             double a = s * B2(i, j), b = B(i, j);
+            if (std::abs(a) < 1e-290 && std::abs(b) < 1e-290) continue; // underflow range: products flush to zero / denormals differently
             VF_REQUIRE(std::memcmp(&a, &b, sizeof(double)) == 0 || (a == 0 && b == 0), "scaling: 2^" << kexp << " * B'(" << i << "," << j << ") = " << a << " but B = " << b << " (difference " << a - b << ")");
         }
         c.label("scaling-checked");
